@@ -247,6 +247,41 @@ def run(ctx: Ctx) -> None:
                 readers.append(m.loc(x))
     ctx.ob("R15.4", "package|legacy PLY module globals are not read", not readers, msg=f"module-level lexer aliases of PLY are read at {readers}", node=None, nontrivial=False)
 
+    # ---------------------------------------------------------------- R15.7
+    # State shared by all parses need not live in the package: the interpreter has its own.  Library code (everything but
+    # the command-line entry points, which own their process) never calls a setter of process-wide state: the recursion
+    # limit, the working directory, the environment, the locale, warning filters, default encodings, tracing hooks ...
+    # (a parse that fails between "raise the limit" and "put it back" leaves the next parse in another interpreter).
+    ctx.rule("R15.7", "library code calls no setter of process-wide interpreter state (recursion limit, cwd, environment, locale, warning filters, hooks)", minimum=0)
+    _GLOBAL_SETTERS = {
+        "sys.setrecursionlimit", "sys.setswitchinterval", "sys.settrace", "sys.setprofile", "sys.setdlopenflags", "sys.set_int_max_str_digits",
+        "os.chdir", "os.umask", "os.putenv", "os.unsetenv", "os.setuid", "os.setgid", "os.nice", "locale.setlocale", "warnings.simplefilter",
+        "warnings.filterwarnings", "warnings.resetwarnings", "logging.basicConfig", "logging.disable", "gc.disable", "gc.enable", "gc.set_threshold",
+        "threading.settrace", "threading.setprofile", "threading.stack_size", "socket.setdefaulttimeout", "random.seed", "re.purge", "signal.signal",
+        "signal.alarm", "faulthandler.enable", "tracemalloc.start", "resource.setrlimit", "atexit.register", "importlib.invalidate_caches",
+    }
+    _CLI = {"dump", "gentest", "__main__"}
+    n157 = 0
+    for m in ctx.repo.modules.values():
+        if m.name in _CLI or m.name.startswith("_ply"):
+            continue
+        for x in ast.walk(m.tree):
+            bad = None
+            if isinstance(x, ast.Call) and norm(x.func) in _GLOBAL_SETTERS:
+                bad = norm(x.func)
+            elif isinstance(x, (ast.Assign, ast.AugAssign, ast.Delete)):
+                for t in (x.targets if isinstance(x, (ast.Assign, ast.Delete)) else [x.target]):
+                    tt = norm(t)
+                    if tt.startswith(("os.environ[", "sys.path", "sys.stdout", "sys.stderr", "sys.stdin", "sys.modules[", "builtins.")):
+                        bad = tt
+            elif isinstance(x, ast.Call) and isinstance(x.func, ast.Attribute) and norm(x.func.value) in ("os.environ", "sys.path", "sys.modules") and x.func.attr in ("update", "setdefault", "pop", "append", "insert", "extend", "remove", "clear"):
+                bad = norm(x.func)
+            if bad:
+                n157 += 1
+                ctx.ob("R15.7", f"{m.name}:{m.qualname_of(x)}|{bad}", False,
+                       msg=f"`{short(x, 60)}` changes state of the whole process: it is shared with every other parse (and everything else) running in it, and an exception between this and its undoing leaves it changed", node=x, mod=m)
+    ctx.ob("R15.7", "package|no process-wide setter in library modules", n157 == 0, msg=f"{n157} call(s) / store(s), listed above", node=None, nontrivial=False)
+
     # ---------------------------------------------------------------- R15.6
     # A preprocessor function made by a factory (make_*_preprocessor) lives in ParserOptions
     # and is called once per parse: whatever it captured from the factory is shared by every
